@@ -251,7 +251,7 @@ func (s *Session) setStorageCallbacks() {
 	})
 
 	s.Router.HandleIncoming(simplefixgo.AllMsgTypes, func(msg []byte) bool {
-		if s.state != WaitingLogonAnswer && s.state != WaitingLogon {
+		if state := s.getState(); state != WaitingLogonAnswer && state != WaitingLogon {
 			seqNum, err := fix.ValueByTag(msg, strconv.Itoa(s.Tags.MsgSeqNum))
 			if err != nil {
 				return true
@@ -395,7 +395,7 @@ func (s *Session) Run() (err error) {
 			return true
 		}
 
-		switch s.state {
+		switch s.getState() {
 		case WaitingLogon:
 			s.LogonSettings = &LogonSettings{
 				HeartBtInt:      incomingLogon.HeartBtInt(),
@@ -457,7 +457,7 @@ func (s *Session) Run() (err error) {
 			return true
 		}
 
-		switch s.state {
+		switch s.getState() {
 		case WaitingLogoutAnswer:
 			s.changeState(ReceivedLogoutAnswer, true)
 			s.changeState(WaitingLogon, true)
@@ -492,7 +492,7 @@ func (s *Session) Run() (err error) {
 			return true
 		}
 
-		if s.state == WaitingTestReqAnswer {
+		if s.getState() == WaitingTestReqAnswer {
 			// reset SuccessfulLogged statue without event trigger
 			s.changeState(SuccessfulLogged, false)
 		}
@@ -560,7 +560,7 @@ func (s *Session) start() error {
 
 	s.Router.HandleIncoming(simplefixgo.AllMsgTypes, func(msg []byte) bool {
 		incomingMsgTimer.Refresh()
-		if s.state == WaitingTestReqAnswer {
+		if s.getState() == WaitingTestReqAnswer {
 			s.changeState(SuccessfulLogged, false)
 		}
 
@@ -583,7 +583,7 @@ func (s *Session) start() error {
 			default:
 			}
 
-			if s.state == WaitingTestReqAnswer {
+			if s.getState() == WaitingTestReqAnswer {
 				s.changeState(Disconnect, true)
 				return
 			}
@@ -680,10 +680,14 @@ func (s *Session) sendWithErrorCheck(msg messages.Message) {
 }
 
 func (s *Session) IsLogged() bool {
+	return s.getState() == SuccessfulLogged
+}
+
+func (s *Session) getState() LogonState {
 	s.stateMu.RLock()
 	defer s.stateMu.RUnlock()
 
-	return s.state == SuccessfulLogged
+	return s.state
 }
 
 func (s *Session) Context() context.Context {
